@@ -74,6 +74,11 @@ static size_t fiber_round_to_page_size(size_t size) {
 // allocates a stack and sets context->ctx_stack and context->ctx_stack_size
 static int fiber_context_alloc_stack(fiber_context_t* context,
                                      size_t stack_size) {
+  // fiber_context_init() writes the initial frame (~100 bytes) at the top of
+  // the stack: never allocate less than the documented minimum
+  if (stack_size < FIBER_MIN_STACK_SIZE) {
+    stack_size = FIBER_MIN_STACK_SIZE;
+  }
 #if defined(FIBER_STACK_SPLIT)
   context->ctx_stack = __splitstack_makecontext(
       stack_size, context->splitstack_context, &context->ctx_stack_size);
